@@ -99,7 +99,7 @@ Proof. unfold rx_valid, rx_is_match. destruct (parse re); [discriminate|reflexiv
 
 Definition tok_parses_1 (t : tok) : bool := match tok_atom 1 t with Some _ => true | None => false end.
 
-(* ------------------------------------------------------------------ T2, full strength: still refuted *)
+(* ------------------------------------------------------------------ T2: the earlier witnesses are gone *)
 (* With the class-aware scanner (prefix.rs after 9944bb4) the two witnesses of the first round are no longer
    token lists: (a[)b(]c) and a([(])|x([)]) are now single groups for the scanner as for the parser. *)
 Definition old1_ts : list tok := [TGrp [97; 91]%N; TLit 98%N; TGrp [93; 99]%N].
@@ -109,34 +109,11 @@ Lemma old_witnesses_gone : forallb tok_ok old1_ts = false /\ forallb tok_ok old2
   /\ tok_parses_1 (TGrp [97; 91; 41; 98; 40; 93; 99]%N) = true.
 Proof. repeat split; vm_compute; reflexivity. Qed.
 
-(* the ONLY discrepancy found that remains (bounded exhaustive search, see the report): the name of a \p{..} / \P{..} escape.  The parser of RIO.Rx reads ANY characters up to
-   the closing brace as the name (and any single character after \p), the scanner counts the parentheses in it.
-   witness:  q = (\P{)x(})   tokens  (\P{)  x  (})  — for the parser one group holding \P{")x("} (an unknown
-   category: matches every character); the token prefix (\P{) is not a regex.
-   The regex crate itself rejects such a name (unknown Unicode property), so this is an artefact of the
-   model engine, not of the library: no valid rule regex has this shape. *)
-Definition w1_ts : list tok := [TGrp [92; 80; 123]%N; TLit 120%N; TGrp [125]%N].
-Definition w1_s : list N := [122]%N.
-
-Lemma w1_facts : toks_ok w1_ts /\ ML rx_is_match false (render w1_ts) w1_s = true
-  /\ MN rx_is_match false (render (firstn 1 w1_ts)) w1_s = false
-  /\ rx_valid false (c_caret :: render (firstn 1 w1_ts)) = false /\ toks_parse w1_ts = false.
-Proof. repeat split; vm_compute; reflexivity. Qed.
-
-(* the second witness of the previous round (an unescaped open bracket as the END of a class range, [!-[] ) is gone
-   with the class_range state of 4f24679: x(a[!-[])|(]]) is no longer the literal x followed by ONE group *)
-Definition old3_ts : list tok := [TLit 120%N; TGrp [97; 91; 33; 45; 91; 93; 41; 124; 40; 93; 93]%N].
-Lemma old_witness_range_gone : forallb tok_ok old3_ts = false
-  /\ tok_ok (TGrp [120;91;33;45;91;93;40;93;93;41;121]%N) = true /\ tok_parses_1 (TGrp [120;91;33;45;91;93;40;93;93;41;121]%N) = true.
-Proof. repeat split; vm_compute; reflexivity. Qed.
-
-Theorem rx_engine_prefix_law_refuted : ~ engine_prefix_law rx_is_match.
-Proof.
-  intros H. destruct w1_facts as (Hok & Hm & Hn & _).
-  assert (Hn' : MN rx_is_match false (render (firstn 1 w1_ts)) w1_s = true).
-  { apply (H false _ (render w1_ts) w1_s); [|exact Hm]. exists w1_ts, 1. split; [exact Hok|]. split; reflexivity. }
-  rewrite Hn in Hn'. discriminate.
-Qed.
+(* the \P{..} witness of the earlier rounds is gone since RIO.Rx only accepts property names made of letters, digits,
+   _ = : ! ^ and space: the pattern is no longer a valid regex *)
+Definition old4_ts : list tok := [TGrp [92; 80; 123]%N; TLit 120%N; TGrp [125]%N].
+Lemma old_witness_prop_gone : toks_ok old4_ts /\ rx_valid false (leaf_regex (render old4_ts)) = false.
+Proof. split; vm_compute; reflexivity. Qed.
 
 (* the failing pairs all lie outside [toks_parse] *)
 Corollary prefix_law_failure_class : forall ic ts k s, toks_ok ts ->
